@@ -1,9 +1,117 @@
 import ModVerif.Drv.Util
+import ModVerif.Drv.TlogUtil
+import ModVerif.Model.Tlog
+import ModVerif.Model.Tile
 namespace ModVerif.Drv.Tile
-open ModVerif ModVerif.Drv
+open ModVerif ModVerif.Drv ModVerif.Drv.TlogUtil ModVerif.Tlog ModVerif.Tile
 
-/-- stub: no ops modelled yet -/
+/-- tile token `H/L/N/W`, `L = -1` for a data tile -/
+def tile? (s : String) : Option Tile :=
+  match s.splitOn "/" with
+  | [h, l, n, w] => do
+    let h ← h.toNat?; let n ← n.toNat?; let w ← w.toNat?
+    if l == "-1" then pure { h := h, l := 0, n := n, w := w, data := true }
+    else do let l ← l.toNat?; pure { h := h, l := l, n := n, w := w }
+  | _ => none
+
+def showTile (t : Tile) : String :=
+  let l := if t.data then "-1" else toString t.l
+  s!"{t.h}/{l}/{t.n}/{t.w}"
+
+def showTiles (l : List Tile) : String :=
+  if l.isEmpty then "_" else ",".intercalate (l.map showTile)
+
+/-! the adversarial tile server of `readhashes` (environment, not model): faults are
+    `L:N:kind:a:b` applied, in order, to the true data of every requested tile with that (L, N). -/
+
+structure Fault where
+  l : Nat
+  n : Nat
+  kind : String
+  a : Nat
+  b : Nat
+
+def fault? (s : String) : Option Fault :=
+  match s.splitOn ":" with
+  | [l, n, k, a, b] => do
+    let l ← l.toNat?; let n ← n.toNat?; let a ← a.toNat?; let b ← b.toNat?
+    pure ⟨l, n, k, a, b⟩
+  | _ => none
+
+def faults? (s : String) : Option (List Fault) :=
+  if s == "_" then some [] else (s.splitOn ",").mapM fault?
+
+def flipBit (h : Bytes) (bit : Nat) : Bytes :=
+  h.mapIdx fun i c => if i == bit / 8 then c ^^^ (UInt8.ofNat (1 <<< (bit % 8))) else c
+
+def applyFault (store : List Bytes) (t : Tile) (d : Option (List Bytes)) (f : Fault) : Option (List Bytes) :=
+  match d with
+  | none => none
+  | some d =>
+    match f.kind with
+    | "flip" => some (d.mapIdx fun i x => if i == f.a then flipBit x f.b else x)
+    | "swap" =>
+      match d[f.a]?, d[f.b]? with
+      | some x, some y => some ((d.set f.a y).set f.b x)
+      | _, _ => some d
+    | "dup" =>
+      match d[f.a]?, d[f.b]? with
+      | some x, some _ => some (d.set f.b x)
+      | _, _ => some d
+    | "trunc" => some (d.take (d.length - f.a))
+    | "ext" =>
+      match d with
+      | [] => some d
+      | x :: _ => some (d ++ List.replicate f.a x)
+    | "repl" => trueTile store { t with l := f.a, n := f.b }
+    | "miss" => none
+    | _ => some d
+
+def serve (store : List Bytes) (fs : List Fault) (t : Tile) : Option (List Bytes) :=
+  (fs.filter fun f => f.l == t.l && f.n == t.n).foldl (applyFault store t) (trueTile store t)
+
+def digest (d : List Bytes) : String := (Sha256.sum256Hex d.flatten).take 16 |>.toString
+
+def showSaved : Option (List (Tile × List Bytes)) → String
+  | none => "none"
+  | some l => if l.isEmpty then "_" else ",".intercalate (l.map fun (t, d) => showTile t ++ "=" ++ digest d)
+
 def handle : Handler
+  | "tileforindex", [h, i] => do
+    let h ← h.toNat?; let i ← i.toNat?
+    pure (match tileForIndexPub h i with
+      | .ok t => showTile t
+      | .error e => showErr e)
+  | "newtiles", [h, o, n] => do
+    let h ← h.toNat?; let o ← o.toNat?; let n ← n.toNat?
+    pure (match newTiles h o n with
+      | .ok l => showTiles l
+      | .error e => showErr e)
+  | "tilepath", [t] => do let t ← tile? t; pure (xh (tilePath t))
+  | "parsetilepath", [p] => do
+    let p ← hx p
+    pure (match parseTilePath p with
+      | some t => showTile t
+      | none => "err")
+  | "hashfromtile", [t, d, i] => do
+    let t ← tile? t; let d ← hxList d; let i ← i.toNat?
+    pure (match hashFromTile nodeH t d i with
+      | .ok h => xh h
+      | .error e => showErr e)
+  | "readtiledata", [t, r] => do
+    let t ← tile? t; let r ← records r
+    pure (showHashes (buildStore leafH nodeH r >>= fun st => readTileData t (storeReader st)))
+  | "readhashes", [n, h, idx, fs, seed] => do
+    let n ← n.toNat?; let h ← h.toNat?; let idx ← natList idx; let fs ← faults? fs; let seed ← seed.toNat?
+    let recs := (List.range n).map (synthRecord seed)
+    pure (match buildStore leafH nodeH recs with
+      | .error e => showErr e
+      | .ok st =>
+        match treeHash nodeH emptyH n (storeReader st) with
+        | .error e => showErr e
+        | .ok th =>
+          let out := readHashes nodeH n th h idx (serve st fs)
+          showHashes out.result ++ " saved=" ++ showSaved out.saved)
   | _, _ => none
 
 end ModVerif.Drv.Tile
